@@ -71,3 +71,21 @@ Fixpoint coracle (c : Cache.cst) (evs : list Cache.cev) (os : list (list (Cache.
   end.
 Definition check_cache (evs : list Cache.cev) (os : list (list (Cache.file * Z))) : nat * nat :=
   (ccmp Cache.cinit evs os 0, coracle Cache.cinit evs os).
+
+(* ---- rollup layer: the directory of the source family after every event (table files in order of first appearance,
+   numbered from 0), compared with the model; oracle: every file whose rollup to some target has not succeeded - by the
+   events alone - is in the observed directory ---- *)
+From LinDBV.C02 Require Rollup.
+Fixpoint rcmp (ds os : list (list nat)) (i : nat) : nat :=
+  match ds, os with
+  | [], [] => 0
+  | d :: ds', o :: os' => if seteq d o then rcmp ds' os' (S i) else S i
+  | _, _ => 799
+  end.
+Fixpoint roracle (ws : list (list (nat * nat))) (os : list (list nat)) (i : nat) : nat :=
+  match ws, os with
+  | w :: ws', o :: os' => if forallb (fun p => mem (fst p) o) w then roracle ws' os' (S i) else 200 + i
+  | _, _ => 0
+  end.
+Definition check_rollup (evs : list Rollup.ev) (os : list (list nat)) : nat * nat :=
+  (rcmp (Rollup.disks false Rollup.init evs) os 0, roracle (Rollup.waiting false Rollup.init evs) os 1).
